@@ -79,7 +79,7 @@ try:
     dst = f'/verif/seeded/{name}'
     os.makedirs(dst, exist_ok=True)
     for f in os.listdir(mutdir):
-        if os.path.isfile(f'{mutdir}/{f}') and f != 'TASK.md':
+        if os.path.isfile(f'{mutdir}/{f}') and f != 'TASK.md' and os.path.abspath(mutdir) != os.path.abspath(dst):
             shutil.copy(f'{mutdir}/{f}', dst)
     meta['caught'] = any(v['exit'] == 1 for v in meta['checks'].values())
     json.dump(meta, open(f'{dst}/meta.json', 'w'), indent=1)
